@@ -1,1 +1,221 @@
-//! Shared noodles-dependent harness code (corpus, drivers).
+//! Shared noodles-dependent harness code: corpus (written by the sync noodles writers at run time),
+//! result-log drivers over the sync readers, render functions, mutation helpers.
+//!
+//! Public API used by C12, C13, C15 (and C16): [`Format`], [`Doc`], [`Field`], [`corpus`], [`read_log`],
+//! [`read_log_bufread`], [`Opts`], the `render_*` functions in [`render`].
+
+pub mod corpus;
+pub mod drive;
+pub mod mutate;
+pub mod records;
+pub mod render;
+pub mod walk;
+
+use std::{fmt, sync::Arc};
+
+pub use corpus::corpus;
+pub use drive::{Api, BgzfRead, Opts, read_log, read_log_bufread};
+pub use render::*;
+
+/// A format (reader entry point) exercised by the environment checks.
+#[derive(Clone, Copy, Debug, PartialEq, Eq, Hash, PartialOrd, Ord)]
+pub enum Format {
+    Bgzf,
+    Bam,
+    Bcf,
+    Cram,
+    Sam,
+    SamGz,
+    Vcf,
+    VcfGz,
+    Fasta,
+    FastaIndexer,
+    Fastq,
+    Gff,
+    Gtf,
+    Bed,
+    Bai,
+    Csi,
+    Tbi,
+    Gzi,
+    Fai,
+    Crai,
+}
+
+impl Format {
+    pub const ALL: [Format; 20] = [
+        Format::Bgzf,
+        Format::Bam,
+        Format::Bcf,
+        Format::Cram,
+        Format::Sam,
+        Format::SamGz,
+        Format::Vcf,
+        Format::VcfGz,
+        Format::Fasta,
+        Format::FastaIndexer,
+        Format::Fastq,
+        Format::Gff,
+        Format::Gtf,
+        Format::Bed,
+        Format::Bai,
+        Format::Csi,
+        Format::Tbi,
+        Format::Gzi,
+        Format::Fai,
+        Format::Crai,
+    ];
+
+    pub fn name(self) -> &'static str {
+        match self {
+            Format::Bgzf => "bgzf",
+            Format::Bam => "bam",
+            Format::Bcf => "bcf",
+            Format::Cram => "cram",
+            Format::Sam => "sam",
+            Format::SamGz => "sam.gz",
+            Format::Vcf => "vcf",
+            Format::VcfGz => "vcf.gz",
+            Format::Fasta => "fasta",
+            Format::FastaIndexer => "fasta-indexer",
+            Format::Fastq => "fastq",
+            Format::Gff => "gff",
+            Format::Gtf => "gtf",
+            Format::Bed => "bed",
+            Format::Bai => "bai",
+            Format::Csi => "csi",
+            Format::Tbi => "tbi",
+            Format::Gzi => "gzi",
+            Format::Fai => "fai",
+            Format::Crai => "crai",
+        }
+    }
+
+    /// The file is a sequence of BGZF members (payload mutations go through the uncompressed stream).
+    pub fn is_bgzf(self) -> bool {
+        matches!(
+            self,
+            Format::Bgzf | Format::Bam | Format::Bcf | Format::SamGz | Format::VcfGz | Format::Csi | Format::Tbi
+        )
+    }
+
+    pub fn is_index(self) -> bool {
+        matches!(
+            self,
+            Format::Bai | Format::Csi | Format::Tbi | Format::Gzi | Format::Fai | Format::Crai
+        )
+    }
+
+    /// Plain line-based text (as delivered to the reader).
+    pub fn is_text(self) -> bool {
+        matches!(
+            self,
+            Format::Sam
+                | Format::Vcf
+                | Format::Fasta
+                | Format::FastaIndexer
+                | Format::Fastq
+                | Format::Gff
+                | Format::Gtf
+                | Format::Bed
+                | Format::Fai
+        )
+    }
+
+    /// The sync noodles reader for this format needs a `BufRead`.
+    pub fn needs_bufread(self) -> bool {
+        matches!(
+            self,
+            Format::Sam
+                | Format::Vcf
+                | Format::Fasta
+                | Format::FastaIndexer
+                | Format::Fastq
+                | Format::Gff
+                | Format::Gtf
+                | Format::Bed
+                | Format::Fai
+        )
+    }
+}
+
+impl fmt::Display for Format {
+    fn fmt(&self, f: &mut fmt::Formatter<'_>) -> fmt::Result {
+        f.write_str(self.name())
+    }
+}
+
+/// A located length / count / offset / id field for structured mutation.
+#[derive(Clone, Debug, PartialEq, Eq)]
+pub struct Field {
+    /// Byte offset in the stream the field list belongs to (`Doc::bytes` or `Inner::bytes`).
+    pub offset: usize,
+    /// Width in bytes. For `itf8` / `ltf8` / `text-int` kinds this is the encoded width in the document.
+    pub width: usize,
+    /// Kind name, e.g. `bam.block_size`, `bgzf.bsize`, `bai.n_bin`, `cram.container.length`.
+    pub kind: &'static str,
+    /// Integer encoding of the field.
+    pub enc: Enc,
+}
+
+#[derive(Clone, Copy, Debug, PartialEq, Eq)]
+pub enum Enc {
+    /// Little-endian fixed width (1, 2, 4, 8).
+    Le,
+    /// CRAM ITF8.
+    Itf8,
+    /// CRAM LTF8.
+    Ltf8,
+    /// ASCII decimal.
+    Text,
+}
+
+/// The uncompressed stream carried by a BGZF document (BAM, BCF, SAM.gz, VCF.gz, CSI, tabix, BGZF).
+#[derive(Clone, Debug, Default)]
+pub struct Inner {
+    pub bytes: Arc<Vec<u8>>,
+    /// Structural boundaries (record / line / field-group ends) in uncompressed coordinates, sorted.
+    pub boundaries: Arc<Vec<usize>>,
+    /// Record (or line) end offsets only: `record_ends[i]` = end of item `i` after the header, sorted.
+    pub record_ends: Arc<Vec<usize>>,
+    /// End of the header in uncompressed coordinates.
+    pub header_end: usize,
+    pub fields: Vec<Field>,
+    /// Uncompressed start offset of every BGZF member (same order as the members).
+    pub member_starts: Arc<Vec<usize>>,
+}
+
+/// One corpus document.
+#[derive(Clone, Debug)]
+pub struct Doc {
+    pub format: Format,
+    pub name: String,
+    pub bytes: Arc<Vec<u8>>,
+    /// Structural boundary offsets in `bytes` (block / container / record / line / field ends), sorted.
+    pub boundaries: Arc<Vec<usize>>,
+    /// Located length / count / offset fields in `bytes`.
+    pub fields: Vec<Field>,
+    /// For BGZF-based documents: the uncompressed stream with its own boundaries and fields.
+    pub inner: Option<Arc<Inner>>,
+    /// One of the > 64 KiB documents (expensive sweeps use a reduced offset set, stated as such).
+    pub big: bool,
+    /// Name of the corpus document this index was built for (index documents only).
+    pub index_of: Option<String>,
+    /// Name of the record set the document was written from.
+    pub set: String,
+    /// Ends (offsets in `bytes`) of the top-level units after the header: BGZF members, CRAM containers,
+    /// lines of text documents, per-reference sections / entries of binary indexes.
+    pub item_ends: Arc<Vec<usize>>,
+    /// End of the fixed header part in `bytes` where the walk knows one (CRAM file definition; for BAI /
+    /// CSI / tabix the offset of the optional trailing `n_no_coor`).
+    pub header_end: usize,
+}
+
+impl Doc {
+    pub fn len(&self) -> usize {
+        self.bytes.len()
+    }
+    pub fn is_empty(&self) -> bool {
+        self.bytes.is_empty()
+    }
+}
